@@ -119,7 +119,7 @@ fn rand_utf8(r: &mut Rng, n: usize) -> Vec<u8> {
     let mut s = String::new();
     for _ in 0..n {
         let c = match r.below(6) { 0 => r.below(128) as u32, 1 => 128 + r.below(1920) as u32, 2 => 0x800 + r.below(0xD000) as u32,
-                                   3 => 0xE000 + r.below(0x2000) as u32, 4 => 0x10000 + r.below(0x100000) as u32, _ => r.pick(&[0u32, 0x7F, 0x80, 0x7FF, 0x800, 0xFFFF, 0x10000, 0x10FFFF, 0xD7FF, 0xE000]) };
+                                   3 => 0xE000 + r.below(0x2000) as u32, 4 => 0x10000 + r.below(0x100000) as u32, _ => r.pick(&[0u32, 0x7F, 0x80, 0x7FF, 0x800, 0xFFFF, 0x10000, 0x10FFFF, 0xD7FF, 0xE000, 0xFFFD, 0xFFFC, 0xFFFE, 0xFEFF, 0x2028, 0x85]) };
         if let Some(ch) = char::from_u32(c) { s.push(ch); }
     }
     s.into_bytes()
@@ -172,6 +172,15 @@ pub fn gen(tier: &str, r: &mut Rng, emit: &mut dyn FnMut(Vec<u64>)) {
             let mut b = r.bytes(l); for i in 0..z { b[i] = 0; }
             let mut v = vec![1, w]; wr_bytes(&mut v, &b); emit(v);
         } } }
+    }
+    // strings far longer than any width, at lengths that are small again modulo 2^16 / 2^32-ish casts
+    for w in [1u64, 2, 4, 8] { for l in [65535usize, 65536, 65537, 65536 + w as usize, 131072, 131073] {
+        let mut b = r.bytes(l); b[0] = 0;
+        let mut v = vec![1, w]; wr_bytes(&mut v, &b); emit(v);
+    } }
+    // valid strings around the replacement character and other code points a lossy conversion treats specially
+    for s in ["\u{fffd}", "a\u{fffd}b", "\u{fffc}\u{fffd}\u{fffe}", "\u{feff}x", "\u{fffd}\u{fffd}", "x\u{0}y", "\u{10ffff}\u{fffd}"] {
+        let mut v = vec![2]; wr_bytes(&mut v, s.as_bytes()); emit(v);
     }
     // strings: valid, and invalid sequences (overlongs, surrogates, > U+10FFFF, truncated tails)
     let bad: [&[u8]; 16] = [&[0x80], &[0xC0, 0x80], &[0xC1, 0xBF], &[0xE0, 0x80, 0x80], &[0xE0, 0x9F, 0xBF], &[0xED, 0xA0, 0x80], &[0xED, 0xBF, 0xBF],
